@@ -149,13 +149,53 @@ Theorem C20_same :
 Proof. exact same_outputs. Qed.
 Print Assumptions C20_same.
 
-(* Both are, observably, a latest-value cell (abs_impl: a counter of published values, the
-   latest value, and per subscriber the count it has seen). *)
+(* Both are, observably, a latest-value cell (absZ_impl: a counter of published values, the
+   latest value, the number of handles, and per subscriber the count it has seen; abs_impl: the
+   same with, per subscriber, whether it is registered for a wake-up). *)
 Theorem C20_latest_value_cell :
   forall ops : list op,
-  run tokio_impl ops = run abs_impl ops /\ run smol_impl ops = run abs_impl ops.
+  run tokio_impl ops = run abs_impl ops /\ run smol_impl ops = run abs_impl ops /\
+  run abs_impl ops = run absZ_impl ops.
 Proof. exact latest_value_cell. Qed.
 Print Assumptions C20_latest_value_cell.
+
+(* The wake-up obligation (a stream that is awaited — not hand-polled — only runs again when its
+   waker is woken).  `parked I ops s`: after ops, subscriber s's last poll returned Pending and
+   its waker is still registered with the channel (tokio: the Recv future kept by
+   BroadcastStream has its waiter queued in the channel's wait list; smol: the stream's
+   EventListener has not been notified); `woken I ops o`: the subscribers whose registered waker
+   operation o, performed after ops, wakes.  In both models, for every history:
+   1. Pending => registered: a poll that returns Pending leaves the subscriber parked;
+   2. a parked subscriber has nothing to receive (its next poll would be Pending again);
+   3. a parked subscriber stays parked over any operation unless that operation wakes it (or
+      drops it);
+   4. hence every Pending -> Ready transition is preceded by a wake: if s was polled Pending and,
+      after any further operations (none of them a poll or the drop of s), its next poll would
+      no longer be Pending, then one of those operations has woken s. *)
+Theorem C20_wakeup :
+  forall I : impl, I = tokio_impl \/ I = smol_impl ->
+  (forall ops s, next I ops (Poll s) = OPending -> parked I (ops ++ [Poll s]) s = true) /\
+  (forall ops s, parked I ops s = true -> next I ops (Poll s) = OPending) /\
+  (forall ops s o, parked I ops s = true ->
+     parked I (ops ++ [o]) s = true \/ In s (woken I ops o) \/ o = DropSub s) /\
+  (forall ops s rest,
+     next I ops (Poll s) = OPending ->
+     (forall o, In o rest -> o <> Poll s /\ o <> DropSub s) ->
+     next I (ops ++ Poll s :: rest) (Poll s) <> OPending ->
+     exists pre o post, rest = pre ++ o :: post /\ In s (woken I (ops ++ Poll s :: pre) o)).
+Proof. exact wakeup_models. Qed.
+Print Assumptions C20_wakeup.
+
+(* ... and the two models wake the same subscribers at the same operations.  (Of the real
+   crates, event-listener under async-broadcast additionally forwards a notification when a
+   stream that was notified but not polled since is dropped: one further registered stream is
+   then woken EARLY.  The smol model leaves that out — its `parked` is a superset of the really
+   registered streams, which keeps 1.-4. valid for them — and the correspondence check allows
+   exactly these early wake-ups, at DropSub operations only.) *)
+Theorem C20_same_wakes :
+  forall ops : list op, wakes tokio_impl ops = wakes smol_impl ops.
+Proof. exact same_wakes. Qed.
+Print Assumptions C20_same_wakes.
 
 (* Non-vacuity: a scenario with two handles and two subscribers created at different points and
    through different handles, a lagging subscriber (two sets between polls: Lagged / Overflowed
@@ -181,6 +221,17 @@ Proof.
   cbv zeta. repeat split; try (vm_compute; reflexivity).
   intros o H. cbn in H. repeat (destruct H as [<-|H]; [exact I|]). destruct H.
 Qed.
+
+(* wake-ups: two parked subscribers; a set wakes both once (a second set wakes nobody, they
+   are no longer registered); after re-polling, the drop of the last handle wakes the one that
+   is parked again *)
+Example C20_wakeup_nonvacuous :
+  let ops := [Subscribe 0; Subscribe 0; Poll 0; Poll 1; Set_ 0 5; Set_ 0 6; Poll 0; Poll 0;
+              CloneH 0; DropH 0; DropH 1]%N in
+  wakes tokio_impl ops = [[]; []; []; []; [0; 1]; []; []; []; []; []; [0]]%nat /\
+  wakes smol_impl ops = wakes tokio_impl ops /\
+  parked tokio_impl (firstn 4 ops) 1 = true /\ parked tokio_impl (firstn 5 ops) 1 = false.
+Proof. cbv zeta. repeat split; vm_compute; reflexivity. Qed.
 
 (* the notifier dropped without notifying: end, no item *)
 Example C20_once_dropped_nonvacuous :
